@@ -185,7 +185,7 @@ Definition parse1210 (d : N) (body : list N) : result (list (name * N)) :=
   if len body <? pre + 1 + 1 then Err E_BODY_LEN else
   cnt <- idx body (pre + 1) ;;
   let cursor := pre + 2 in
-  if len body <? cursor + cnt * 6 then Err E_BODY_LEN else
+  if len body <? cursor + cnt * 5 then Err E_BODY_LEN else      (* 1 + 4 per item (fix 6ec5093) *)
   parse_items body cursor (N.to_nat cnt).
 
 (* ---------------- the two stage functions ---------------- *)
@@ -356,3 +356,19 @@ Fixpoint run_from (d : N) (s : st) (segs : list (list N)) : list event * list N 
   end.
 
 Definition run (d : N) (segs : list (list N)) : list event * list N * st := run_from d init_st segs.
+
+(* ---------------- the default file handler at the end of the connection (file_event.go) -------- *)
+From JT.Model Require Import Paths.
+(* fileEvent.OnEvent in stage SuccessQuit: nothing without a terminal message (fix 712482c); otherwise
+   MkdirAll(phone) and one os.WriteFile per record whose name passes the filter:
+   (directory, list of (path, content)) *)
+Definition on_quit_saves (s : st) : option (list N * list (list N * list N)) :=
+  if s_stage s =? ST_SUCCESS_QUIT then
+    match s_recent s with
+    | Some m =>
+      Some (phone_of m,
+            map (fun r => (save_path (phone_of m) (fst r), p_body (snd r)))
+                (filter (fun r => accepted (fst r)) (s_record s)))
+    | None => None
+    end
+  else None.
